@@ -71,6 +71,15 @@ check('C04',
       'Reference loop semantics DESIGN.md Appendix A; loop variables are not read after their loop (not documented).',
       'DESIGN.md C04')
 
+check('C06',
+      'bounded-exhaustive enumeration of token strings, single-point mutations of a valid corpus, character strings and constructed rule-breakers through the real compiler and VM',
+      'Every token string of length <=3 over a ~100-token vocabulary (raw and after a defining prelude; thorough adds length 4 over a 40-token core), '
+      'every single-point mutation (delete/duplicate/swap/truncate/replace) of every compilable program of the docs+scripts corpus, every Latin-1 '
+      'string of length <=2 and every length-3 string over 40 symbols, and ~240 constructed rule-breakers in 5 contexts. Each must end in accept '
+      'or a Line-numbered rejection with no program; every accepted text is loaded and run and must not hit an internal fault.',
+      'Internal-fault classification by exception type and raising frame (see evidence assumptions); script-level run-time errors are counted, not judged.',
+      'DESIGN.md C06')
+
 NOT_YET = 'check not built yet in this session (design in DESIGN.md); will be claimed when its command exists'
 
 
